@@ -182,6 +182,7 @@ type PathResult struct {
 	OKAssert     int
 	RangeDecided int
 	Knowns       []string
+	FieldUses    map[*ssa.FieldAddr]*fieldUse
 }
 
 type ValidationSample struct {
@@ -212,6 +213,7 @@ type HarnessResult struct {
 	Wall         float64
 	Truncated    bool
 	SamplePaths  [][]uint64
+	FieldUses    map[string]*fieldUse // "Type.field" -> uses by repository code / of which symbolic
 }
 
 func (g *Engine) newExec(s *Solver, cfg *HarnessCfg, prefix []uint64) *Exec {
@@ -230,7 +232,7 @@ func (g *Engine) runPath(s *Solver, fn *ssa.Function, cfg *HarnessCfg, prefix []
 		end = pathEnd{EndUnsupported, fmt.Sprintf("decision prefix not consumed (%d of %d): %s", e.di, len(e.prefix), end.msg)}
 	}
 	r := &PathResult{End: end, Asserts: e.asserts, Reached: e.reached, Alts: e.alts, AltModels: e.altModels, Funcs: e.funcs, Steps: e.steps,
-		Queries: e.nQueries, Spawned: e.spawned, Trace: e.trace, OKAssert: e.nAssertOK, RangeDecided: e.nRangeDecided, Knowns: e.knowns}
+		Queries: e.nQueries, Spawned: e.spawned, Trace: e.trace, OKAssert: e.nAssertOK, RangeDecided: e.nRangeDecided, Knowns: e.knowns, FieldUses: e.fieldUses}
 	if (end.kind == EndOK || end.kind == EndHalt) && (wantSample || pin != nil) {
 		r.Sample = e.sample(end.kind)
 	}
@@ -347,6 +349,20 @@ func (g *Engine) Explore(name string, cfg HarnessCfg, workers int, nSamples int,
 				}
 				for f := range r.Funcs {
 					res.Funcs[f] = true
+				}
+				for fa, u := range r.FieldUses {
+					if k := fieldName(fa); k != "" {
+						if res.FieldUses == nil {
+							res.FieldUses = map[string]*fieldUse{}
+						}
+						t := res.FieldUses[k]
+						if t == nil {
+							t = &fieldUse{}
+							res.FieldUses[k] = t
+						}
+						t.Uses += u.Uses
+						t.Symbolic += u.Symbolic
+					}
 				}
 				for _, sp := range r.Spawned {
 					res.Spawned[sp] = true
